@@ -11,7 +11,7 @@ import numpy as np
 from ..core import util
 from ..oracles import graphs as G
 from ..oracles import stats as S
-from ..workloads import gmat
+from ..workloads import gmat, callforms
 
 TECHNIQUE = "runtime post-condition monitor on dag_avg_deg/dag_full (acyclicity by reference DFS, weight range, ordering validity, seed determinism) + frequency monitors over seeds with Chernoff-bounded binomial tests"
 LEVEL_TEXT = ("Every generated matrix in a grid of (p, k, weight range) cells x hundreds of seeds is checked: shape, zero diagonal, "
@@ -66,8 +66,13 @@ def _check_call(rec, family, case, gname, fn, p, k, wr, rs):
     kw = {"w_min": wr[0], "w_max": wr[1], "random_state": rs if rs % 7 else np.int64(rs)}
     sub = {"gen": gname, "p": p, "k": k, "wrange": wr, "random_state": rs}
     try:
-        W = fn(*args, **kw)
-        W2, order = fn(*args, return_ordering=True, **kw)
+        if rs % 3 == 1:       # every argument positionally, in the documented order
+            W = fn(*callforms.positional(gname, *args, **kw))
+            W2, order = fn(*callforms.positional(gname, *args, return_ordering=True, **kw))
+            rec.count("call-form:positional")
+        else:
+            W = fn(*args, **kw)
+            W2, order = fn(*args, return_ordering=True, **kw)
     except Exception as e:
         rec.exception_violation("C11:%s-exception" % gname, family, sub, "%s raised %s" % (gname, type(e).__name__), e)
         return None
